@@ -1,3 +1,4 @@
+import Bpmn.Props.C11MatchCurrent
 import Bpmn.Props.C14
 import Bpmn.Props.C14Current
 open Bpmn.Props.C14
@@ -7,3 +8,6 @@ open Bpmn.Props.C14
 #print axioms pm_exact
 #print axioms nonmatching_inert
 #print axioms current_sentinel
+#print axioms Bpmn.Props.C11MatchCurrent.translated
+#print axioms Bpmn.Props.C11MatchCurrent.message_match_is_source
+#print axioms Bpmn.Props.C11MatchCurrent.signal_match_is_source
